@@ -5,6 +5,7 @@ import (
 	"encoding/json"
 	"fmt"
 	"io"
+	"os"
 	"runtime/debug"
 	"strings"
 	"sync"
@@ -84,6 +85,8 @@ type Sim struct {
 	Proj *Projector
 
 	StepTimeout time.Duration
+	// AnnotationActors: controllers that use the annotation owner strategy.
+	AnnotationActors map[string]bool
 	Panics      int
 }
 
@@ -93,6 +96,7 @@ func NewSim(out io.Writer) *Sim {
 		Ctrls:       map[string]reconcile.Reconciler{},
 		out:         out,
 		StepTimeout: 20 * time.Second,
+		AnnotationActors: map[string]bool{},
 	}
 	s.Proj = &Projector{}
 	s.Dyn = NewDynCache(s)
@@ -162,7 +166,13 @@ func (s *Sim) StartPass(actor string, target Key) *Pass {
 	}
 	s.passSeq++
 	p := &Pass{ID: s.passSeq, Actor: actor, Target: target, grant: make(chan grantMsg), parked: make(chan parkMsg, 1)}
-	s.Emit(Event{Actor: actor, Pass: p.ID, Target: target.String(), Ev: "PassBegin", Key: target.String()})
+	strategy := "native"
+	if s.AnnotationActors[actor] {
+		strategy = "annotation"
+	}
+	s.Emit(Event{Actor: actor, Pass: p.ID, Target: target.String(), Ev: "PassBegin", Key: target.String(),
+		Args: map[string]any{"oid": target.Kind + "/" + target.Name, "strategy": strategy,
+			"forced": len(os.Getenv("PKO_FORCE_ADOPTION")) > 0}})
 	ctx := context.WithValue(context.Background(), passKey{}, p)
 	go func() {
 		var res reconcile.Result
